@@ -1,3 +1,4 @@
+import Rtsp.Generated.Facts.ClientSm
 /-
 Executable model of the control state machine of gortsplib's client (client.go), core Lean only.
 
@@ -5,8 +6,8 @@ The client has ONE run loop (`Client.run` / `runInner`) that owns all state; API
 to it.  While it serves a call it may block only in `waitResponse`, where a timer (ReadTimeout) is
 armed.  The Go call stack at such a point is represented by an explicit list of frames (`Fr`): the
 top frame is `wait m cseq` (inside `do`, waiting for the answer to request `m`), below it the
-callers (`doOptions`, `doDescribe`, `doSetup`, `reset`, …), at the bottom `apiK a` (the API call whose
-result is owed).  `step` consumes ONE event (API call, response, request from the server,
+callers (`doOptions`, `doDescribe`, `doSetup`, `reset`, …); when the stack is unwound control is back
+in `runInner`, which hands the result to the caller (`pending`) and leaves when `mustClose` is set.  `step` consumes ONE event (API call, response, request from the server,
 interleaved frame, read error, timer, Close) and runs the loop to its next blocking point.
 
 Server behaviour = input events.  Results are small enums (`Err` = names of the liberrors types,
@@ -19,6 +20,7 @@ Not modelled: keep-alive and UDP/TCP liveness timers, SRTP/MIKEY, multicast list
 write errors (a failed write surfaces as the read error that follows it).
 -/
 namespace Rtsp.ClientSm
+open Rtsp.Facts.ClientSm (statusOK statusMovedPermanently statusUseProxy statusUnauthorized statusNotFound statusUnsupportedTransport)
 
 inductive CState | initial | prePlay | play | preRecord | record
   deriving DecidableEq, Repr, Inhabited
@@ -75,7 +77,7 @@ structure TrH where
 
 structure Resp where
   cseq : CSeqH := .missing
-  status : Nat := 200
+  status : Nat := statusOK
   sess : SessK := .none
   www : AuthK := .none
   loc : LocK := .none
@@ -136,7 +138,6 @@ inductive Fr
   | playK | recordK | pauseK
   | redescK (a : SetupArgs)               -- doSetup: the re-DESCRIBE of the TCP switch is running
   | resetK (n : AfterReset)               -- reset → doClose: TEARDOWN's `do` is running
-  | apiK (a : Api)                        -- runInner: deliver the result to the caller
   deriving DecidableEq, Repr, Inhabited
 
 inductive Out
@@ -151,6 +152,7 @@ structure St where
   closed : Bool := false          -- run() returned: `done` is closed
   closeRes : Res := none          -- c.closeError
   mustClose : Bool := false
+  ctxDone : Bool := false         -- c.ctx is cancelled (Close was called or run() is leaving)
   conn : Bool := false            -- c.nconn != nil
   reader : Bool := false          -- c.reader != nil
   allow : Bool := false           -- reader.allowInterleavedFrames
@@ -166,6 +168,7 @@ structure St where
   stdSet : Bool := false
   lastDesc : Bool := false        -- c.lastDescribeURL != nil
   dialOk : Bool := true           -- a dial to (c.Scheme, c.Host) succeeds
+  pending : Option Api := none    -- the API call runInner is serving
   stack : List Fr := []
   out : List Out := []
   deriving DecidableEq, Repr, Inhabited
@@ -179,7 +182,7 @@ def preStates : List CState := [.initial, .prePlay, .preRecord]
 /-- `connOpen`: dial when there is no connection. -/
 def connOpen (s : St) : Option St :=
   if s.conn then some s
-  else if s.dialOk then some (emit { s with conn := true, reader := true, allow := false } .dial)
+  else if s.dialOk && !s.ctxDone then some (emit { s with conn := true, reader := true, allow := false } .dial)
   else none
 
 def chanInUse (chans : List (Nat × Nat)) (ch : Nat) : Bool :=
@@ -212,7 +215,8 @@ def sendReq (s : St) (m : Meth) (tp : Nat := 0) : St :=
   emit { s with cseq := s.cseq + 1 } (.sent m (s.cseq + 1) s.session s.sender tp)
 
 /-- `do` from its first line.  Blocks (result has `wait …` on top of `fs ++ k`) or finishes at once:
-`onErr` when the implicit doOptions fails before anything is sent, `onSkip` after the write when no
+`onErr` when the implicit doOptions fails before anything is sent or when the context is already
+cancelled (waitResponse returns ErrClientTerminated at once), `onSkip` after the write when no
 response is awaited. -/
 def startDo (s : St) (m : Meth) (skip : Bool) (tp : Nat) (fs k : List Fr)
     (onErr : St → Err → St) (onSkip : St → St) : St :=
@@ -223,11 +227,14 @@ def startDo (s : St) (m : Meth) (skip : Bool) (tp : Nat) (fs k : List Fr)
       | none => onErr s .other
       | some s1 =>
         let s2 := sendReq s1 .options
-        { s2 with stack := .wait .options s2.cseq 0 :: .optionsK :: .doOpt m skip tp :: (fs ++ k) }
+        if s2.ctxDone then onErr { s2 with mustClose := true } .terminated
+        else { s2 with stack := .wait .options s2.cseq 0 :: .optionsK :: .doOpt m skip tp :: (fs ++ k) }
     else onErr s .invalidState
   else
     let s1 := sendReq s m tp
-    if skip then onSkip s1 else { s1 with stack := .wait m s1.cseq tp :: (fs ++ k) }
+    if skip then onSkip s1
+    else if s1.ctxDone then onErr { s1 with mustClose := true } .terminated
+    else { s1 with stack := .wait m s1.cseq tp :: (fs ++ k) }
 
 /-- what `doClose` does to connection, reader and media (not the TEARDOWN) -/
 def closeConn (s : St) : St := { s with conn := false, reader := false, allow := false }
@@ -242,7 +249,7 @@ def clearSession (s : St) : St :=
 /-- `run`: runInner returned `e`; cancel the context, doClose.  The context is cancelled, so the
 TEARDOWN's `do` cannot block: if OPTIONS was never answered with 200 only that OPTIONS is written. -/
 def runExit (s : St) (e : Res) : St :=
-  let s1 : St := { s with closed := true, closeRes := e, stack := [] }
+  let s1 : St := { s with closed := true, closeRes := e, stack := [], ctxDone := true }
   let s2 : St := if s1.cst == .play || s1.cst == .record then { s1 with writer := false, allow := false } else s1
   let s3 : St :=
     if s2.conn && s2.baseUrl then
@@ -293,48 +300,62 @@ def playUndo (s : St) (back : CState) : St := { s with writer := false, allow :=
 
 def commitSetup (s : St) (a : SetupArgs) (p : Proto) (ch : Nat) : St :=
   { s with
-      chans := (s.chans.filter (fun (m, _) => m != a.mi)) ++ [(a.mi, if p == .tcp then ch else 0)],
+      chans := (s.chans.filter (fun (m, _) => m != a.mi)) ++ [(a.mi, ch)],
       baseUrl := true, tr := some p,
       backSet := s.backSet || a.back, stdSet := s.stdSet || !a.back,
       cst := if s.cst == .initial then .prePlay else s.cst }
 
-/-- doSetup after `do` returned a response -/
-def setupResp (c : Cfg) (s : St) (a : SetupArgs) (p : Proto) (r : Resp) (k : List Fr)
-    (retK : St → Val → St) : St :=
-  if r.status != 200 then
-    if r.status == 461 && s.tr == none && c.proto == none then
-      setupStart c { s with tr := some .tcp } a k retK
-    else retK s (.err .badStatus)
-  else if !r.tr.present then retK s (.err .transportInvalid)
+/-- what doSetup decides about a SETUP response -/
+inductive SetupVerdict
+  | accept (ch : Nat)      -- the media is set up (ch: TCP channel, 0 for UDP)
+  | reject (e : Err)
+  | retryTcp               -- 461 with automatic protocol: doSetup again over TCP
+  | switchTcp              -- TCP transport answered to a UDP request: reset, DESCRIBE, doSetup over TCP
+  deriving DecidableEq, Repr, Inhabited
+
+/-- doSetup's validation of the response against the request (protocol `p` was requested) -/
+def setupCheck (c : Cfg) (s : St) (p : Proto) (r : Resp) : SetupVerdict :=
+  if r.status != statusOK then
+    if r.status == statusUnsupportedTransport && s.tr == none && c.proto == none then .retryTcp
+    else .reject .badStatus
+  else if !r.tr.present then .reject .transportInvalid
   else if (p == .udp || p == .mcast) && r.tr.tcp then
-    if s.tr == none && c.proto == none && s.lastDesc then
-      resetStart c { s with baseUrl := true } (.switchTcp a) k retK
-    else retK s (.err .serverRequestedTCP)
+    if s.tr == none && c.proto == none && s.lastDesc then .switchTcp
+    else .reject .serverRequestedTCP
   else
     match p with
     | .udp =>
-      if r.tr.delivery == .multicast then retK s (.err .invalidDelivery)
+      if r.tr.delivery == .multicast then .reject .invalidDelivery
       else if (s.cst == .preRecord || !c.anyPort) && r.tr.serverPorts != .valid then
-        retK s (.err .serverPortsNotProvided)
-      else if r.tr.savp then retK s (.err .other)
-      else retK (commitSetup s a p 0) (.resp r)
-    | .mcast => retK s (.err .other)   -- multicast listeners are outside the model
+        .reject .serverPortsNotProvided
+      else if r.tr.savp then .reject .other
+      else .accept 0
+    | .mcast => .reject .other   -- multicast listeners are outside the model
     | .tcp =>
-      if !r.tr.tcp then retK s (.err .serverRequestedUDP)
-      else if r.tr.delivery == .multicast then retK s (.err .invalidDelivery)
+      if !r.tr.tcp then .reject .serverRequestedUDP
+      else if r.tr.delivery == .multicast then .reject .invalidDelivery
       else
         match r.tr.interleaved with
-        | none => retK s (.err .noInterleavedIDs)
+        | none => .reject .noInterleavedIDs
         | some (x, y) =>
-          if x + 1 != y then retK s (.err .invalidInterleavedIDs)
-          else if chanInUse s.chans x then retK s (.err .interleavedIDsInUse)
-          else if r.tr.savp then retK s (.err .other)
-          else retK (commitSetup s a p x) (.resp r)
+          if x + 1 != y then .reject .invalidInterleavedIDs
+          else if chanInUse s.chans x then .reject .interleavedIDsInUse
+          else if r.tr.savp then .reject .other
+          else .accept x
+
+/-- doSetup after `do` returned a response -/
+def setupResp (c : Cfg) (s : St) (a : SetupArgs) (p : Proto) (r : Resp) (k : List Fr)
+    (retK : St → Val → St) : St :=
+  match setupCheck c s p r with
+  | .accept ch => retK (commitSetup s a p ch) (.resp r)
+  | .reject e => retK s (.err e)
+  | .retryTcp => setupStart c { s with tr := some .tcp } a k retK
+  | .switchTcp => resetStart c { s with baseUrl := true } (.switchTcp a) k retK
 
 /-- doDescribe after `do` returned a response -/
 def describeResp (c : Cfg) (s : St) (r : Resp) (k : List Fr) (retK : St → Val → St) : St :=
-  if r.status != 200 then
-    if 301 ≤ r.status && r.status ≤ 305 && r.loc != .none && r.loc != .multi then
+  if r.status != statusOK then
+    if statusMovedPermanently ≤ r.status && r.status ≤ statusUseProxy && r.loc != .none && r.loc != .multi then
       resetStart c s (.redirect (if r.loc == .downgrade && !c.secure then .good else r.loc)) k retK
     else retK s (.err .badStatus)
   else if r.ct == .missing || r.ct == .dup then retK s (.err .contentTypeMissing)
@@ -343,38 +364,43 @@ def describeResp (c : Cfg) (s : St) (r : Resp) (k : List Fr) (retK : St → Val 
   else if !r.baseOk then retK s (.err .other)
   else retK { s with lastDesc := true } (.resp r)
 
+/-- `do`: "get session from response" -/
+def captureSession (s : St) (k : SessK) : St :=
+  match k with
+  | .good id => { s with session := some id }
+  | _ => s
+
 /-- the tail of `do` once waitResponse accepted `r`: Session capture, 401 retry -/
 def doTail (c : Cfg) (s : St) (m : Meth) (tp : Nat) (r : Resp) (k : List Fr) (retK : St → Val → St) : St :=
-  match r.sess with
-  | .bad => retK s (.err .sessionInvalid)
-  | sk =>
-    let s1 : St := match sk with
-      | .good id => { s with session := some id }
-      | _ => s
-    if r.status == 401 && c.creds && !s1.sender then
+  if r.sess == .bad then retK s (.err .sessionInvalid)
+  else
+    let s1 := captureSession s r.sess
+    if r.status == statusUnauthorized && c.creds && !s1.sender then
       if r.www == .valid then
         startDo { s1 with sender := true } m false tp [] k (fun s e => retK s (.err e)) id
       else retK s1 (.err .authSetup)
     else retK s1 (.resp r)
 
-/-- runInner: hand the result to the caller; leave the loop when mustClose is set -/
-def deliver (s : St) (a : Api) (v : Val) : St :=
+/-- back in runInner: hand the result to the caller (if a call is being served); leave the loop when
+mustClose is set -/
+def deliver (s : St) (v : Val) : St :=
   let r : Res := match v with
     | .err e => some e
     | _ => none
-  let s1 := emit { s with stack := [] } (.ret a r)
+  let s1 : St := match s.pending with
+    | some a => emit { s with stack := [], pending := none } (.ret a r)
+    | none => { s with stack := [] }
   if s1.mustClose then runExit s1 r else s1
 
 /-- Return value `v` to the frame `f` whose callers are `k`; `retK` returns to `k`. -/
 def frameRet (c : Cfg) (f : Fr) (k : List Fr) (retK : St → Val → St) (s : St) (v : Val) : St :=
   match f with
   | .wait _ _ _ => s                     -- not a value consumer
-  | .apiK a => deliver s a v
   | .optionsK =>
     match v with
     | .resp r =>
-      if r.status == 200 then retK { s with optionsSent := true } v
-      else if r.status == 404 then retK s v
+      if r.status == statusOK then retK { s with optionsSent := true } v
+      else if r.status == statusNotFound then retK s v
       else retK s (.err .badStatus)
     | _ => retK s v
   | .doOpt m skip tp =>
@@ -382,7 +408,9 @@ def frameRet (c : Cfg) (f : Fr) (k : List Fr) (retK : St → Val → St) (s : St
     | .err e => retK s (.err e)
     | _ =>
       let s1 := sendReq s m tp
-      if skip then retK s1 .nil else { s1 with stack := .wait m s1.cseq tp :: k }
+      if skip then retK s1 .nil
+      else if s1.ctxDone then retK { s1 with mustClose := true } (.err .terminated)
+      else { s1 with stack := .wait m s1.cseq tp :: k }
   | .describeK =>
     match v with
     | .resp r => describeResp c s r k retK
@@ -390,7 +418,7 @@ def frameRet (c : Cfg) (f : Fr) (k : List Fr) (retK : St → Val → St) (s : St
   | .announceK =>
     match v with
     | .resp r =>
-      if r.status != 200 then retK s (.err .badStatus)
+      if r.status != statusOK then retK s (.err .badStatus)
       else retK { s with baseUrl := true, cst := .preRecord } v
     | _ => retK s v
   | .setupK a p =>
@@ -400,17 +428,17 @@ def frameRet (c : Cfg) (f : Fr) (k : List Fr) (retK : St → Val → St) (s : St
   | .playK =>
     match v with
     | .resp r =>
-      if r.status != 200 then retK (playUndo s .prePlay) (.err .badStatus) else retK { s with writer := true } v
+      if r.status != statusOK then retK (playUndo s .prePlay) (.err .badStatus) else retK { s with writer := true } v
     | _ => retK (playUndo s .prePlay) v
   | .recordK =>
     match v with
     | .resp r =>
-      if r.status != 200 then retK (playUndo s .preRecord) (.err .badStatus) else retK { s with writer := true } .nil
+      if r.status != statusOK then retK (playUndo s .preRecord) (.err .badStatus) else retK { s with writer := true } .nil
     | _ => retK (playUndo s .preRecord) v
   | .pauseK =>
     match v with
     | .resp r =>
-      if r.status != 200 then retK { s with writer := true } (.err .badStatus)
+      if r.status != statusOK then retK { s with writer := true } (.err .badStatus)
       else retK { s with allow := false, cst := if s.cst == .play then .prePlay else if s.cst == .record then .preRecord else s.cst } v
     | _ => retK { s with writer := true } v
   | .redescK a =>
@@ -421,12 +449,13 @@ def frameRet (c : Cfg) (f : Fr) (k : List Fr) (retK : St → Val → St) (s : St
 
 /-- unwind: return `v` into the stack `k` (structural recursion on the stack) -/
 def resume (c : Cfg) : List Fr → St → Val → St
-  | [], s, _ => { s with stack := [] }
+  | [], s, v => deliver s v
   | f :: k, s, v => frameRet c f k (resume c k) s v
 
 /-- an API call accepted by runInner -/
-def startApi (c : Cfg) (s : St) (a : Api) : St :=
-  let k : List Fr := [.apiK a]
+def startApi (c : Cfg) (s0 : St) (a : Api) : St :=
+  let s : St := { s0 with pending := some a }
+  let k : List Fr := []
   let retK := resume c k
   match a with
   | .options =>
@@ -505,7 +534,7 @@ def step (c : Cfg) (s : St) (e : Ev) : St :=
       | .frame _ => if s.allow then s else waitFail c { s with reader := false } .unexpectedFrame k
       | .readErr => waitFail c { s with reader := false } .other k
       | .timer => waitFail c s .timeout k
-      | .close => waitFail c s .terminated k
+      | .close => waitFail c { s with ctxDone := true } .terminated k
     | _ => s
 
 def init : St := {}
